@@ -257,7 +257,9 @@ DYN_TAGS = ['{field.memo}', '{source}', '{extract("REF:(\\\\d+)")}', '{label}', 
             '{extract(field.code, "#(\\\\d+)")}', '{extract("Foods #(\\\\d+)")}', '{extract(field.code, "REF:\\\\d+ #(\\\\d+)")}',
             # expressions whose letter case matters (\\S is not \\s, "B" is not "b" for split)
             '{extract(field.code, "REF:(\\\\S+)")}', '{extract("\\\\D+ (\\\\d+)")}', '{split(field.code, "B", 0)}', '{extract(field.memo, "PROJ:(\\\\S+)")}',
-            '{split(description, "S", 1)}']
+            '{split(description, "S", 1)}',
+            # parentheses / commas inside a string literal of the expression are text, not tag-list syntax
+            '{split(description, "(", 0)}', '{"big,spender" if amount > 100 else "small)"}', '{split(field.code, ")", 0)}']
 TRANSFORMS = [
     ('field.description', 'regex_replace(field.description, "^SQ \\\\*", "")'),
     ('field.description', 'strip_prefix(field.description, "UBER ")'),
